@@ -4,12 +4,15 @@ import (
 	"fmt"
 	"math/rand/v2"
 	"net/http"
+	"net/http/httptest"
 	"regexp"
 	"strings"
+	"sync"
 	"testing"
 	"time"
 
 	"github.com/zishang520/engine.io/v2/config"
+	"github.com/zishang520/engine.io/v2/engine"
 	"github.com/zishang520/engine.io/v2/types"
 
 	"verifh/refcodec"
@@ -388,12 +391,60 @@ func runC17(c c17Case, r *rep.Report) (key, msg string, stats map[string]int64) 
 	return
 }
 
+// corsStorm: many goroutines send preflights from different origins at once; every response
+// must be judged by ITS request's origin.
+func corsStorm(r *rep.Report, kind string, perG int) {
+	c := c17Case{Cors: kind, Creds: true}
+	so := &config.ServerOptions{}
+	so.SetCors(c.corsOptions())
+	eng := engine.NewServer(so)
+	defer eng.Close()
+	origins := []string{"https://a.example", "https://b.example", "https://evil.example", "https://sub.a.example", "https://a.example.evil.test"}
+	var wg sync.WaitGroup
+	var mu sync.Mutex
+	bad := 0
+	first := ""
+	for g := 0; g < 16; g++ {
+		wg.Add(1)
+		go func(g int) {
+			defer wg.Done()
+			o := origins[g%len(origins)]
+			for i := 0; i < perG; i++ {
+				req := httptest.NewRequest("OPTIONS", "http://h/engine.io/?EIO=4&transport=polling", nil)
+				req.Header.Set("Origin", o)
+				req.Header.Set("Access-Control-Request-Method", "POST")
+				rec := httptest.NewRecorder()
+				eng.ServeHTTP(rec, req)
+				if k, m := checkCORS(c, o, rec.Header(), "concurrent preflight"); k != "" {
+					mu.Lock()
+					bad++
+					if first == "" {
+						first = k + ": " + m
+					}
+					mu.Unlock()
+				}
+			}
+		}(g)
+	}
+	wg.Wait()
+	r.Case("cors-storm/"+kind, true)
+	r.Obs("concurrent_cors_responses_checked", int64(16*perG))
+	if bad > 0 {
+		r.Violationf("c17-cors-concurrent-requests", map[string]any{"policy": kind, "goroutines": 16, "per_goroutine": perG}, "%d of %d concurrent responses carry CORS headers that do not fit their own request's origin; first: %s", bad, 16*perG, first)
+	}
+}
+
 func TestC17(t *testing.T) {
 	r := rep.New(t, "C17")
 	defer r.Flush()
 	r.Rule("PRNG servers: cookie option {none, default, named+path, all attributes} x CORS policy {none, '*', fixed string, list, list with regexp, regexp, true, false} x credentials x preflightContinue x success status x methods/headers as string or list; 1-3 sessions each with a PRNG history of polls, posts and preflights from allowed, disallowed, look-alike and absent origins (JSONP in a fifth); oracle: Set-Cookie exactly on the handshake response with value == session id and the configured attributes, initial_headers once per session, headers once per response, CORS headers against a reference policy model, preflight status/no session; distinct = option/history signature")
 	r.Assume("'responses of the session' are the responses produced by the session's transport (handshake, poll, data); protocol-error replies and preflight answers are written without the transport's header path")
 	r.Assume("for a fixed-string origin policy Vary: Origin is accepted either way (the value does not depend on the request)")
+	if r.Lane == 0 {
+		for _, kind := range []string{"list", "listmixed", "regexp", "true", "fixed"} {
+			corsStorm(r, kind, r.N(4*1500, 16*20000)/r.Lanes)
+		}
+	}
 	n := r.N(3000, 300000)
 	for i := 0; i < n; i++ {
 		if !r.Only(i) {
